@@ -112,7 +112,7 @@ def match_known(prop, record):
     for ent in load_known_findings():
         if ent.get("status") != "known":
             continue
-        if ent.get("property") != prop:
+        if prop not in ent.get("properties", [ent.get("property")]):
             continue
         pred = getattr(kf_predicates, ent["predicate"], None)
         if pred is None:
